@@ -5,6 +5,7 @@ from __future__ import annotations
 import copy
 import functools
 import math
+import zlib
 
 import torch
 import torch.nn.functional as F
@@ -16,16 +17,30 @@ DT = {'f32': torch.float32, 'f64': torch.float64, 'bf16': torch.bfloat16}
 
 # ------------------------------------------------------------------- data
 def lattice(shape, *keys, seed=0, scale=8.0):
-    """Small rationals in [-2, 2] on a fixed lattice, indexed by keys."""
+    """Small rationals in about [-2.3, 2.3] on a fixed lattice, indexed by
+    keys (tensor role, rank, step, micro-batch, ...).  The key hash is a CRC
+    and the modulus is prime so that every key component changes the data
+    (an earlier linear scheme was degenerate in the rank component: 99 = 0
+    mod 33 made all ranks see the same batch)."""
     n = 1
     for s in shape:
         n *= s
-    k = seed * 7919
-    for i, v in enumerate(keys):
-        k = (k * 31 + (int(v) + 1) * (97 + 2 * i)) % 1000003
+    k = zlib.crc32(repr((seed,) + tuple(int(v) for v in keys)).encode())
+    a, b = k % 1009, (k >> 11) % 997
     idx = torch.arange(n, dtype=torch.int64)
-    v = ((idx * 37 + (idx * idx) * 11 + k * (idx + 3)) % 33) - 16
+    v = ((idx * 5 + (idx * idx) * 11 + a * (idx + 3) + b) % 37) - 18
     return (v.to(F64) / scale).reshape(shape)
+
+
+def _selfcheck():
+    base = lattice((6,), 1, 0, 0, 0)
+    for keys in ((1, 1, 0, 0), (1, 0, 1, 0), (1, 0, 0, 1), (2, 0, 0, 0),
+                 (1, 2, 0, 0), (1, 3, 0, 0)):
+        assert not torch.equal(base, lattice((6,), *keys)), keys
+    assert not torch.equal(base, lattice((6,), 1, 0, 0, 0, seed=1))
+
+
+_selfcheck()
 
 
 # ----------------------------------------------------------------- models
